@@ -32,7 +32,7 @@ hypotheses — no bound on the number of chunks, tasks, or commits.
   is `srcChunks_spec` / `downChunks_spec` in `UmProofs/BrokerScalePlanC.lean`, `…DownB.lean`).
 -/
 namespace Um.Broker.C10
-open Um Um.Slots Um.Broker
+open Um Um.Slots Um.Broker Um.Broker.Scale
 
 /-! ## refusal -/
 
@@ -163,7 +163,7 @@ theorem C10_commit_preserves {c : Cluster} (hinv : CommitInv c) {m : MigStore} (
     (htm : t.isMigrating = false) (htr : t.ranges = m.ranges) (htmm : t.mm = m.mm)
     (hpart : (m.mm.dstPart = 0 ∧ t ∈ dch.mig0) ∨ (m.mm.dstPart = 1 ∧ t ∈ dch.mig1)) (e : Nat) :
     CommitInv { c with chunks := commitRes m.ranges m.mm A dch B, epoch := e } ∧
-    c.pending.Perm (m :: Cluster.pending { c with chunks := commitRes m.ranges m.mm A dch B, epoch := e }) :=
+    (Cluster.pending c).Perm (m :: Cluster.pending { c with chunks := commitRes m.ranges m.mm A dch B, epoch := e }) :=
   commitRes_inv hinv hm hmig hdec htm htr htmm hpart e
 
 /-- **C10_commit_unknown**: a descriptor whose `(ranges, epoch)` matches no pending migrating
@@ -180,15 +180,15 @@ and exactly `#pending - k` pending entries; so `k ≤ #pending`, and the cluster
 migrating iff `k = #pending` -/
 theorem C10_terminates {name : String} {s s' : Store} {k : Nat} (hch : CommitChain name s k s')
     {c : Cluster} (hf : s.findCluster name = some c) (hinv : CommitInv c) :
-    ∃ c', s'.findCluster name = some c' ∧ CommitInv c' ∧ c.pending.length = c'.pending.length + k ∧
-      (c'.isMigrating = false ↔ k = c.pending.length) := by
+    ∃ c', s'.findCluster name = some c' ∧ CommitInv c' ∧ (Cluster.pending c).length = (Cluster.pending c').length + k ∧
+      (c'.isMigrating = false ↔ k = (Cluster.pending c).length) := by
   obtain ⟨c', hf', hinv', hcount⟩ := commitChain_count hch hf hinv
   refine ⟨c', hf', hinv', hcount, ?_⟩
   rw [Cluster.isMigrating_eq_false_iff, ← Cluster.pending_nil_iff hinv'.twin]
   constructor
   · intro h; rw [h] at hcount; simpa using hcount.symm
   · intro h
-    have : c'.pending.length = 0 := by omega
+    have : (Cluster.pending c').length = 0 := by omega
     exact List.eq_nil_of_length_eq_zero this
 
 /-- on a stored cluster with a valid name `auto_delete_free_nodes` can fail only with the two
@@ -210,8 +210,8 @@ a valid cluster name, which the API type guarantees) — the chain of `C10_termi
 extended until nothing is pending -/
 theorem C10_progress {s : Store} {name : String} {c : Cluster} (hf : s.findCluster name = some c)
     (hinv : CommitInv c) :
-    (c.isMigrating = true → c.pending ≠ []) ∧
-    ∀ m ∈ c.pending, ∀ clear, (clear = true → validName name = true) →
+    (c.isMigrating = true → (Cluster.pending c) ≠ []) ∧
+    ∀ m ∈ (Cluster.pending c), ∀ clear, (clear = true → validName name = true) →
       ∃ s', commitMigration s name m.ranges m.mm.epoch false clear = (s', R.ok ()) := by
   constructor
   · intro hmig hnil
@@ -259,7 +259,7 @@ theorem C10_balanced_scale_out_plan_partial {cl : Cluster} {A B : List Chunk} {n
     (hch : cl.chunks = A ++ B) (hA : A.length = n) (hB : B.length = k) (hn : 0 < n) (hk : 0 < k)
     (hfull : FullChunks (n * 2) A 0) (hempty : EmptyChunks B) (hM : (n + k) * 2 ≤ SLOT_NUM) :
     ∃ A' out, removeSlotsFromSrc cl e = R.ok (A' ++ B, out) ∧ A'.length = n ∧
-      FullChunks ((n + k) * 2) A' 0 ∧ OutPlan n k e out :=
+      FullChunks ((n + k) * 2) A' 0 ∧ OutPlan n k e out ∧ (NoMigs A → NoMigs A') :=
   removeSlotsFromSrc_balanced e hch hA hB hn hk hfull hempty hM
 
 /-- **C10_balanced_scale_down_plan_partial** (plan half of `C10_balanced` for scale-down): see
@@ -314,7 +314,7 @@ theorem witness_commitInv : CommitInv exMig := by
     rcases this with rfl | rfl <;> exact compact_of_normal (by simp [exM, exT, NormalRanges])
 
 example : ∃ s', CommitChain "c" (exStore exMig) 1 s' := by
-  have hm : exM ∈ exMig.pending := by decide
+  have hm : exM ∈ (Cluster.pending exMig) := by decide
   obtain ⟨s', h⟩ := (C10_progress (s := exStore exMig) (name := "c") rfl witness_commitInv).2 exM hm false (by simp)
   exact ⟨s', CommitChain.cons _ _ _ h (CommitChain.nil _)⟩
 
@@ -329,7 +329,8 @@ example : FullChunks (1 * 2) exIdle.chunks.dropLast 0 ∧ EmptyChunks [exChunk n
   · intro ch hch; simp at hch; subst hch; exact ⟨rfl, rfl⟩
 
 example : ∃ A' out, removeSlotsFromSrc exIdle 6 = R.ok (A' ++ [exChunk none none [] "c:1" "d:1"], out) ∧
-    A'.length = 1 ∧ FullChunks ((1 + 1) * 2) A' 0 ∧ OutPlan 1 1 6 out := by
+    A'.length = 1 ∧ FullChunks ((1 + 1) * 2) A' 0 ∧ OutPlan 1 1 6 out ∧
+    (NoMigs exIdle.chunks.dropLast → NoMigs A') := by
   apply C10_balanced_scale_out_plan_partial 6 (A := exIdle.chunks.dropLast) (B := [exChunk none none [] "c:1" "d:1"])
     rfl rfl rfl (by decide) (by decide)
   · refine ⟨⟨[(0, 8191)], [(8192, 16383)], rfl, rfl, ⟨by simp, by simp⟩, ⟨by simp, by simp⟩, by decide, by decide⟩, trivial⟩
